@@ -160,6 +160,12 @@ func (c *VC) evalMulti(st *State, e ast.Expr) []*Term {
 		return []*Term{v, c.fresh("ok", sortBool)}
 	case *ast.IndexExpr:
 		// v, ok := m[k]
+		if mt, ok := c.mapModelled(c.typeOf(x.X)); ok {
+			h := c.eval(st, x.X)
+			k := c.coerce(st, c.eval(st, x.Index), c.typeOf(x.Index), mt.Key())
+			v, okT := c.mapRead(st, mt, h, k)
+			return []*Term{v, okT}
+		}
 		c.eval(st, x.X)
 		c.eval(st, x.Index)
 		t := c.typeOf(x)
@@ -206,6 +212,9 @@ func (c *VC) eval(st *State, e ast.Expr) *Term {
 	case *ast.SelectorExpr:
 		return c.evalSelector(st, e)
 	case *ast.StarExpr:
+		if a, t, ok := c.locate(st, e); ok {
+			return c.loadPlace(st, a, t)
+		}
 		p := c.eval(st, e.X)
 		return c.deref(st, p, c.typeOf(e), e.Pos(), exprText(c.prog.fset, e))
 	case *ast.CompositeLit:
@@ -288,44 +297,6 @@ func (c *VC) evalUnary(st *State, e *ast.UnaryExpr) *Term {
 		c.unsupportedf(e.Pos(), "channel receive")
 	}
 	return c.fresh("unary", c.sortOf(c.typeOf(e)))
-}
-
-func (c *VC) addressOf(st *State, x ast.Expr) *Term {
-	switch x := ast.Unparen(x).(type) {
-	case *ast.Ident:
-		obj := c.cur().view.objOf(x)
-		if c.cur().boxed[obj] {
-			if _, ok := st.env[obj]; !ok {
-				c.bindVar(st, obj, c.zero(obj.Type()))
-			}
-			return st.env[obj]
-		}
-	case *ast.CompositeLit:
-		v := c.evalCompositeLit(st, x)
-		return c.allocPtr(st, v)
-	}
-	c.unsupportedf(x.Pos(), "address-of %s", exprText(c.prog.fset, x))
-	a := c.fresh("addr", sortInt)
-	c.addFact(tTrue, mk(">", sortBool, a, intLit64(0)))
-	return a
-}
-
-func (c *VC) allocPtr(st *State, v *Term) *Term {
-	addr := st.alloc
-	st.alloc = c.name("alloc", mk("+", sortInt, st.alloc, intLit64(1)))
-	hn, h := c.ptrHeap(st, v.Sort)
-	st.heaps[hn] = mkStore(h, addr, v)
-	return addr
-}
-
-func (c *VC) deref(st *State, p *Term, t types.Type, pos token.Pos, text string) *Term {
-	c.panicObl(st, "nil-deref", text, pos, mkNot(mkEq(p, intLit64(0))))
-	_, h := c.ptrHeap(st, c.sortOf(t))
-	v := c.sel(h, p)
-	if needsWF(t) || c.mode == ModeInt {
-		c.addFact(tTrue, c.wfAt(st, v, t))
-	}
-	return v
 }
 
 func (c *VC) evalBinary(st *State, e *ast.BinaryExpr) *Term {
@@ -576,6 +547,9 @@ func (c *VC) evalIndex(st *State, e *ast.IndexExpr) *Term {
 		c.readFact(st, v, u.Elem())
 		return v
 	case *types.Array:
+		if a, t, ok := c.locate(st, e); ok {
+			return c.loadPlace(st, a, t)
+		}
 		a := c.eval(st, e.X)
 		i := c.toIdx(c.eval(st, e.Index), c.typeOf(e.Index))
 		c.panicObl(st, "index", text, e.Pos(), c.inBounds(i, c.idxLit(u.Len())))
@@ -583,14 +557,10 @@ func (c *VC) evalIndex(st *State, e *ast.IndexExpr) *Term {
 		c.readFact(st, v, u.Elem())
 		return v
 	case *types.Pointer:
-		if at, ok := u.Elem().Underlying().(*types.Array); ok {
-			p := c.eval(st, e.X)
-			arr := c.deref(st, p, u.Elem(), e.Pos(), text)
-			i := c.toIdx(c.eval(st, e.Index), c.typeOf(e.Index))
-			c.panicObl(st, "index", text, e.Pos(), c.inBounds(i, c.idxLit(at.Len())))
-			v := c.sel(arr, i)
-			c.readFact(st, v, at.Elem())
-			return v
+		if _, ok := u.Elem().Underlying().(*types.Array); ok {
+			if a, t, ok := c.locate(st, e); ok {
+				return c.loadPlace(st, a, t)
+			}
 		}
 	case *types.Basic:
 		if u.Info()&types.IsString != 0 {
@@ -602,6 +572,12 @@ func (c *VC) evalIndex(st *State, e *ast.IndexExpr) *Term {
 			return v
 		}
 	case *types.Map:
+		if mt, ok := c.mapModelled(xt); ok {
+			h := c.eval(st, e.X)
+			k := c.coerce(st, c.eval(st, e.Index), c.typeOf(e.Index), mt.Key())
+			v, _ := c.mapRead(st, mt, h, k)
+			return v
+		}
 		c.eval(st, e.X)
 		c.eval(st, e.Index)
 		v := c.fresh("mapv", c.sortOf(u.Elem()))
@@ -697,6 +673,9 @@ func (c *VC) evalSelector(st *State, e *ast.SelectorExpr) *Term {
 	}
 	switch sel.Kind() {
 	case types.FieldVal:
+		if a, t, ok := c.locate(st, e); ok {
+			return c.loadPlace(st, a, t)
+		}
 		base := c.eval(st, e.X)
 		return c.fieldPath(st, base, c.typeOf(e.X), sel.Index(), e.Pos(), exprText(c.prog.fset, e))
 	case types.MethodVal, types.MethodExpr:
@@ -704,25 +683,6 @@ func (c *VC) evalSelector(st *State, e *ast.SelectorExpr) *Term {
 		return c.fresh("mval", sortInt)
 	}
 	return c.fresh("sel", c.sortOf(c.typeOf(e)))
-}
-
-// fieldPath follows a selection path (with implicit dereferences) from value v of type t.
-func (c *VC) fieldPath(st *State, v *Term, t types.Type, path []int, pos token.Pos, text string) *Term {
-	for _, idx := range path {
-		if p, ok := t.Underlying().(*types.Pointer); ok {
-			v = c.deref(st, v, p.Elem(), pos, text)
-			t = p.Elem()
-		}
-		stt, ok := t.Underlying().(*types.Struct)
-		if !ok {
-			c.unsupportedf(pos, "field selection on %s", t)
-			return c.fresh("fld", sortInt)
-		}
-		s := c.sortOf(t)
-		v = mkField(v, s.Fields[idx].Name)
-		t = stt.Field(idx).Type()
-	}
-	return v
 }
 
 func (c *VC) evalCompositeLit(st *State, e *ast.CompositeLit) *Term {
@@ -801,7 +761,7 @@ func (c *VC) evalElt(st *State, e ast.Expr, t types.Type) *Term {
 		if p, isPtr := t.Underlying().(*types.Pointer); isPtr {
 			_ = p
 			v := c.evalCompositeLit(st, cl)
-			return c.allocPtr(st, v)
+			return c.allocObj(st, p.Elem(), v)
 		}
 	}
 	return c.eval(st, e)
@@ -811,6 +771,13 @@ func (c *VC) evalElt(st *State, e ast.Expr, t types.Type) *Term {
 
 func (c *VC) assign(st *State, lhs ast.Expr, v *Term) {
 	it := types.Typ[types.Int]
+	switch ast.Unparen(lhs).(type) {
+	case *ast.StarExpr, *ast.SelectorExpr, *ast.IndexExpr:
+		if a, t, ok := c.locate(st, lhs); ok {
+			c.storeAt(st, a, t, v, lhs.Pos(), exprText(c.prog.fset, lhs))
+			return
+		}
+	}
 	switch l := ast.Unparen(lhs).(type) {
 	case *ast.Ident:
 		if l.Name == "_" {
@@ -822,11 +789,7 @@ func (c *VC) assign(st *State, lhs ast.Expr, v *Term) {
 		}
 		c.writeVar(st, obj, v)
 	case *ast.StarExpr:
-		p := c.eval(st, l.X)
-		c.panicObl(st, "nil-deref", exprText(c.prog.fset, l), l.Pos(), mkNot(mkEq(p, intLit64(0))))
-		hn, h := c.ptrHeap(st, v.Sort)
-		c.checkWrite(st, hn, p, nil, nil, l.Pos(), exprText(c.prog.fset, l))
-		st.heaps[hn] = mkStore(h, p, v)
+		c.unsupportedf(l.Pos(), "store through %s", exprText(c.prog.fset, l))
 	case *ast.SelectorExpr:
 		sel := c.cur().view.selection(l)
 		if sel == nil || sel.Kind() != types.FieldVal {
@@ -854,18 +817,14 @@ func (c *VC) assign(st *State, lhs ast.Expr, v *Term) {
 			c.panicObl(st, "index", text, l.Pos(), c.inBounds(i, c.idxLit(u.Len())))
 			c.assign(st, l.X, mkStore(a, i, v))
 		case *types.Pointer:
-			if at, ok := u.Elem().Underlying().(*types.Array); ok {
-				p := c.eval(st, l.X)
-				arr := c.deref(st, p, u.Elem(), l.Pos(), text)
-				i := c.toIdx(c.eval(st, l.Index), c.typeOf(l.Index))
-				c.panicObl(st, "index", text, l.Pos(), c.inBounds(i, c.idxLit(at.Len())))
-				hn, h := c.ptrHeap(st, arr.Sort)
-				c.checkWrite(st, hn, p, nil, nil, l.Pos(), text)
-				st.heaps[hn] = mkStore(h, p, mkStore(arr, i, v))
-				return
-			}
 			c.unsupportedf(l.Pos(), "index assignment on %s", xt)
 		case *types.Map:
+			if mt, ok := c.mapModelled(xt); ok {
+				h := c.eval(st, l.X)
+				k := c.coerce(st, c.eval(st, l.Index), c.typeOf(l.Index), mt.Key())
+				c.mapWrite(st, mt, h, k, v, l.Pos(), text)
+				return
+			}
 			c.eval(st, l.X)
 			c.eval(st, l.Index)
 		default:
@@ -876,62 +835,3 @@ func (c *VC) assign(st *State, lhs ast.Expr, v *Term) {
 	}
 }
 
-// assignPath stores v at x.<path>.
-func (c *VC) assignPath(st *State, x ast.Expr, xt types.Type, path []int, v *Term, pos token.Pos, text string) {
-	// Walk the path; find the last pointer hop: everything after it is an in-place update of a heap cell,
-	// everything before it is evaluated as an rvalue.
-	type hop struct {
-		t   types.Type
-		idx int
-	}
-	// evaluate the prefix up to and including the last pointer dereference
-	cur := xt
-	lastPtr := -1
-	var ts []types.Type
-	for i, idx := range path {
-		ts = append(ts, cur)
-		if p, ok := cur.Underlying().(*types.Pointer); ok {
-			lastPtr = i
-			cur = p.Elem()
-		}
-		cur = cur.Underlying().(*types.Struct).Field(idx).Type()
-	}
-	if lastPtr < 0 {
-		// pure value update: rebuild and assign to x
-		base := c.eval(st, x)
-		nv := c.updatePath(base, xt, path, v)
-		c.assign(st, x, nv)
-		return
-	}
-	base := c.eval(st, x)
-	ptr := base
-	t := xt
-	for i := 0; i < lastPtr; i++ {
-		if p, ok := t.Underlying().(*types.Pointer); ok {
-			ptr = c.deref(st, ptr, p.Elem(), pos, text)
-			t = p.Elem()
-		}
-		s := c.sortOf(t)
-		ptr = mkField(ptr, s.Fields[path[i]].Name)
-		t = t.Underlying().(*types.Struct).Field(path[i]).Type()
-	}
-	// now t is a pointer type, ptr its value
-	pt := t.Underlying().(*types.Pointer)
-	c.panicObl(st, "nil-deref", text, pos, mkNot(mkEq(ptr, intLit64(0))))
-	hn, h := c.ptrHeap(st, c.sortOf(pt.Elem()))
-	obj := c.sel(h, ptr)
-	nobj := c.updatePath(obj, pt.Elem(), path[lastPtr:], v)
-	c.checkWrite(st, hn, ptr, nil, nil, pos, text)
-	st.heaps[hn] = c.name(hn, mkStore(h, ptr, nobj))
-}
-
-func (c *VC) updatePath(base *Term, t types.Type, path []int, v *Term) *Term {
-	if len(path) == 0 {
-		return v
-	}
-	s := c.sortOf(t)
-	st := t.Underlying().(*types.Struct)
-	f := s.Fields[path[0]].Name
-	inner := c.updatePath(mkField(base, f), st.Field(path[0]).Type(), path[1:], v)
-	return mkWith(base, f, inner)
-}
